@@ -114,7 +114,7 @@ static int P_negative = 0; /* the model is non-terminating by design: returning 
 enum {
 	C_ROLLBACK, C_STRAGGLER, C_ANTI_LOCAL, C_ANTI_BEFORE_PROC, C_ANTI_AFTER_PROC, C_SILENT, C_FOSSIL_RELEASE, C_GVT_ROUNDS,
 	C_COMMITTED, C_CKPT, C_EVENTS, C_BY_PRED, C_BY_TIME, C_BY_STOP, C_ORPHAN, C_CANCEL_IN_QUEUE, C_REQUEUE, C_E_CHECKED,
-	C_T_CHECKED, C_EARLY_EXIT_THREAD, C_STATS_RECORDS, C_NEG_QUIESCENT, C_REMOTE_SENT, C_REMOTE_ANTI, C_EARLY_ANTI, C_REMOTE_ANTI_RECV
+	C_T_CHECKED, C_EARLY_EXIT_THREAD, C_STATS_RECORDS, C_NEG_QUIESCENT, C_REMOTE_SENT, C_REMOTE_ANTI, C_EARLY_ANTI, C_REMOTE_ANTI_RECV, C_CANCEL_IN_HANDS, C_CANCEL_REQUEUED, C_CANCEL_PROCESSED
 };
 
 /* ------------------------------------------------------------------ monitor state */
@@ -644,8 +644,15 @@ static void on_op(int kind, const volatile void *addr, unsigned size, const char
 		    (unsigned long long)after);
 	if((after & MSG_FLAG_ANTI) && !(before & MSG_FLAG_ANTI)) {
 		rs_count(C_ANTI_LOCAL, 1);
-		if(r->queued)
+		/* where is the message at the moment its sender cancels it? */
+		if(r->queued) {
 			rs_count(C_CANCEL_IN_QUEUE, 1);
+			if(r->has_h)
+				rs_count(C_CANCEL_REQUEUED, 1); /* it had been processed, rolled back and re-queued */
+		} else if(before & MSG_FLAG_PROCESSED)
+			rs_count(C_CANCEL_PROCESSED, 1);        /* processed (or being processed) by the receiver */
+		else
+			rs_count(C_CANCEL_IN_HANDS, 1);         /* extracted by the receiver, not yet marked processed */
 	}
 }
 
@@ -835,7 +842,8 @@ static const struct rs_harness H = {
 	[C_BY_PRED] = "ended_by_predicate", [C_BY_TIME] = "ended_by_time", [C_BY_STOP] = "ended_by_stop",
 	[C_CANCEL_IN_QUEUE] = "cancelled_while_queued", [C_E_CHECKED] = "end_state_compared", [C_T_CHECKED] = "termination_checked",
 	[C_NEG_QUIESCENT] = "negative_quiescent", [C_REMOTE_SENT] = "remote_events_sent", [C_REMOTE_ANTI] = "remote_anti_sent",
-	[C_EARLY_ANTI] = "early_remote_anti", [C_REMOTE_ANTI_RECV] = "remote_anti_extracted", [40] = "mpi_invisible", [41] = "mpi_reordered", [42] = "mpi_collective_delayed"},
+	[C_EARLY_ANTI] = "early_remote_anti", [C_CANCEL_IN_HANDS] = "cancelled_extracted_unprocessed",
+	[C_CANCEL_REQUEUED] = "cancelled_after_requeue", [C_CANCEL_PROCESSED] = "cancelled_after_processing", [C_REMOTE_ANTI_RECV] = "remote_anti_extracted", [40] = "mpi_invisible", [41] = "mpi_reordered", [42] = "mpi_collective_delayed"},
 };
 
 int main(int argc, char **argv)
